@@ -12,6 +12,9 @@ import (
 func doScenario(r *core.Run, sc Scenario, tags ...string) Result {
 	line := sc.Line()
 	r.Begin(line, sc.Mode != ModeNone, append(tags, "format:"+fmtName(sc.Format), "mode:"+string(sc.Mode), "op:"+strings.SplitN(sc.Op, ":", 2)[0])...)
+	if len(sc.Same) > 0 {
+		r.Tag("same-handle")
+	}
 	var out string
 	if os.Getenv("VERIF_IMPL_ONLY") != "" {
 		out = r.Impl(line)
@@ -48,12 +51,47 @@ func followUps(slots []c06.Slot) []string {
 	return append(f, "l", "r")
 }
 
+// sameHandleOps: what a process that got an error back does next with the same handle – reads of
+// everything in play, a listing, the write again, reads again.
+func sameHandleOps(slots []c06.Slot, op string) []string {
+	var f []string
+	reads := func() {
+		for _, s := range slots {
+			f = append(f, "c:"+s.String())
+			if s.HasAll() {
+				f = append(f, "a:"+s.String())
+			}
+		}
+	}
+	reads()
+	f = append(f, "l")
+	if wo, ok := parseWop(op); ok {
+		for _, s := range wo.slots() {
+			f = append(f, "g:"+s.String())
+		}
+	}
+	reads()
+	return f
+}
+
 // enumerate runs the operation without a fault to learn its call count, then every call index in
 // every mode.
 func enumerate(r *core.Run, f c06.Format, cache int, hist []string, op string, tags ...string) {
 	slots := slotsOf(append(append([]string{}, hist...), op))
-	fu := followUps(slots)
-	base := Scenario{Format: f, Cache: cache, Mode: ModeNone, K: 0, History: hist, Op: op, Follow: fu}
+	enumerateBase(r, Scenario{Format: f, Cache: cache, Mode: ModeNone, K: 0, History: hist, Op: op, Follow: followUps(slots)}, tags...)
+}
+
+func enumerateBase(r *core.Run, base Scenario, tags ...string) {
+	f, op := base.Format, base.Op
+	slots := slotsOf(append(append([]string{}, base.History...), op))
+	wo, _ := parseWop(op)
+	// quick tier: returned errors with same-handle follow-ups run on v1 and on the in-memory v2 back end (which
+	// only has this fault mode); the directory back end (fsync on every write) joins in the thorough tier
+	generated := false
+	for _, t := range tags {
+		generated = generated || t == "stream:structured"
+	}
+	sameOK := !wo.isImport() && wo.Kind != "h" && (r.Thorough() || f != c06.V2Dir)
 	res := doScenario(r, base, append(tags, "fault:none")...)
 	modes := []Mode{ModeErr, ModeCrashBefore, ModeCrashAfter, ModeTorn}
 	for k, call := range res.Calls {
@@ -68,9 +106,24 @@ func enumerate(r *core.Run, f c06.Format, cache int, hist []string, op string, t
 					continue
 				}
 			}
+			if (wo.Kind == "m" || wo.isImport()) && m == ModeErr && (call == "Unlock" || call == "RUnlock") {
+				// an injected error means "not performed": migration and import go on after some of these errors
+				// (next key; ErrNotExist survives a failing RUnlock) and would then wait for the lock they still hold
+				continue
+			}
+			if !r.Thorough() && m == ModeCrashBefore && k > 0 && (wo.isImport() || generated) {
+				// quick tier, long call lists: a crash just before call k leaves the storage a crash just after call k-1 leaves
+				continue
+			}
 			sc := base
 			sc.Mode, sc.K = m, k
-			doScenario(r, sc, append(tags, "call:"+strings.SplitN(call, ":", 2)[0])...)
+			extra := []string{"call:" + strings.SplitN(call, ":", 2)[0]}
+			if m == ModeErr && sameOK {
+				// the process survives a returned error: it goes on with the SAME handle before any restart
+				sc.Same = sameHandleOps(slots, op)
+				extra = append(extra, "same-handle-follow-ups")
+			}
+			doScenario(r, sc, append(tags, extra...)...)
 		}
 	}
 }
@@ -107,9 +160,12 @@ func run(r *core.Run) {
 			}
 		}
 	}
+	runImports(r)
+	runHandles(r)
+	runRotateTool(r)
 	r.Exhaustive = true
 	// generated histories (structured stream)
-	n := r.N(6, 50)
+	n := r.N(4, 150)
 	for i := 0; i < n; i++ {
 		f := core.Pick(rd, formats)
 		cache := -1
@@ -129,5 +185,136 @@ func run(r *core.Run) {
 			}
 		}
 		enumerate(r, f, cache, hist, op, "stream:structured", "scenario:generated-history")
+	}
+}
+
+// runImports: IMPORT as the write operation under test – v1 KeyBackuper.Import (per key file), v2
+// ImportKeyRings (per ring; default and overwriting delegate), v1→v2 migration ImportKeyFileV1 (per key) –
+// every storage/back-end call × every mode, into an empty store and over existing keys.
+func runImports(r *core.Run) {
+	type imp struct {
+		f    c06.Format
+		hist []string
+		op   string
+		tag  string
+	}
+	cases := []imp{
+		{c06.V1, nil, "i:ss0", "first"},
+		{c06.V1, []string{"g:ss0", "g:ss0"}, "i:ss0", "over-existing"},
+		{c06.V1, []string{"g:hm2", "g:sp0"}, "i:ss1+hm2+sp0+sp0.pub", "multi-key"},
+		{c06.V2Dir, nil, "i:ss0", "first"},
+		{c06.V2Dir, []string{"g:ss0", "g:ss0"}, "io:ss0", "overwrite-existing"},
+		{c06.V2Dir, []string{"g:sp1"}, "i:ss0+sp1", "multi-key-second-exists"},
+		{c06.V2Dir, nil, "m:ss0", "migrate-first"},
+		{c06.V2Mem, nil, "i:al", "first"},
+		{c06.V2Mem, []string{"g:sp1", "g:sp1"}, "io:sp1", "overwrite-existing"},
+		{c06.V2Mem, []string{"g:sp0"}, "m:sp0+hm1", "migrate-multi-key"},
+	}
+	if r.Thorough() {
+		for _, f := range []c06.Format{c06.V2Dir, c06.V2Mem} {
+			cases = append(cases,
+				imp{f, []string{"g:sp1"}, "i:ss0+sp1+al", "multi-key-second-exists"},
+				imp{f, []string{"g:sp0"}, "m:sp0+hm1", "migrate-multi-key"},
+				imp{f, []string{"g:ss0"}, "i:ss0", "exists-abort"},
+				imp{f, nil, "i:pp+ps+al", "multi-key"},
+				imp{f, nil, "m:pp+ps+al+ss2", "migrate-multi-key"},
+				imp{f, nil, "m:ss0", "migrate-first"},
+				imp{f, nil, "i:ss0", "first"},
+			)
+		}
+		cases = append(cases,
+			imp{c06.V1, []string{"g:sp1"}, "i:sp1+sp1.pub", "pair"},
+			imp{c06.V1, nil, "i:pp+pp.pub+ps+al", "multi-key"},
+			imp{c06.V1, []string{"g:sp0", "g:sp0"}, "i:sp0.pub", "public-half-only"},
+		)
+	}
+	for _, c := range cases {
+		op := c.op
+		if wo, ok := parseWop(op); ok && c.f != c06.V1 && (wo.Kind == "i" || wo.Kind == "io") && len(wo.Items) > 1 {
+			// the bundle holds its rings in the order of their encodings: name them in that order
+			var toks []string
+			for _, s := range ringOrderV2(wo.slots()) {
+				toks = append(toks, s.String())
+			}
+			op = wo.Kind + ":" + strings.Join(toks, "+")
+		}
+		enumerate(r, c.f, -1, c.hist, op, "stream:boundary", "scenario:import", "import:"+c.tag)
+	}
+}
+
+// runHandles: ONE ring handle kept across a failed write (OpenKeyRingRW once; DestroyKey / SetCurrent /
+// AddKey under the fault; then further writes through the same handle; then restart). A transaction left
+// pending in the handle by the failed write would be applied by the next successful one.
+func runHandles(r *core.Run) {
+	hist := []string{"g:ss0", "g:ss0", "g:ss0"}
+	follow := []string{"c:ss0", "a:ss0", "l", "r", "g:ss0", "c:ss0", "a:ss0"}
+	type hc struct {
+		hop  string
+		same []string
+	}
+	cases := []hc{
+		{"D2", []string{"A", "C4"}},
+		{"D1", []string{"C2", "D1"}},
+		{"C1", []string{"A", "D2"}},
+		{"A", []string{"D1", "C4", "A"}},
+	}
+	for _, f := range []c06.Format{c06.V2Mem, c06.V2Dir} {
+		for _, c := range cases {
+			if !r.Thorough() && f == c06.V2Dir && c.hop != "D2" {
+				continue
+			}
+			enumerateBase(r, Scenario{Format: f, Cache: -1, Mode: ModeNone, History: hist, Op: "h:ss0:" + c.hop, Same: c.same, Follow: follow},
+				"stream:boundary", "scenario:ring-handle", "hop:"+c.hop[:1])
+		}
+	}
+	if r.Thorough() {
+		histP := []string{"g:sp1", "g:sp1"}
+		enumerateBase(r, Scenario{Format: c06.V2Mem, Cache: -1, Mode: ModeNone, History: histP, Op: "h:sp1:D1", Same: []string{"A", "C3"}, Follow: []string{"c:sp1", "p:sp1", "a:sp1", "l", "g:sp1", "a:sp1"}},
+			"stream:boundary", "scenario:ring-handle", "hop:D")
+	}
+}
+
+// runRotateTool: cmd/acra-rotate (file variant) cut at every event of its run.
+func runRotateTool(r *core.Run) {
+	doRot := func(line string, modelled bool, tags ...string) rotResult {
+		r.Begin(line, true, append(tags, "scenario:rotate-tool")...)
+		var out string
+		if modelled && os.Getenv("VERIF_IMPL_ONLY") == "" {
+			out = r.Do(line)
+		} else {
+			out = r.Impl(line)
+		}
+		res := takeRot()
+		for _, fd := range res.Findings {
+			r.Fail(fd.Class, fd.Desc+"   [scenario: "+line+"] => "+out)
+		}
+		return res
+	}
+	ns := []int{1, 2}
+	if r.Thorough() {
+		ns = []int{1, 2, 3}
+	}
+	for _, format := range []string{"v1", "v2"} {
+		for _, n := range ns {
+			doRot(fmt.Sprintf("C08.rot %s none 0 %d", format, n), true, "stream:boundary", "mode:none")
+			for k := 0; k <= 2*n; k++ {
+				modes := []Mode{ModeErr, ModeCrashBefore, ModeCrashAfter}
+				if k%2 == 1 {
+					modes = []Mode{ModeCrashBefore, ModeCrashAfter} // a rewrite is an OS call: only its two sides can be cut
+				}
+				for _, m := range modes {
+					doRot(fmt.Sprintf("C08.rot %s %s %d %d", format, m, k, n), true, "stream:boundary", "mode:"+string(m))
+				}
+			}
+		}
+		// cuts INSIDE the save of the new key pair (implementation only: the model treats the save as one step)
+		base := doRot(fmt.Sprintf("C08.rotin %s 100000 1", format), false, "stream:boundary", "mode:none")
+		step := 1
+		if !r.Thorough() {
+			step = 3
+		}
+		for j := 0; j < len(base.Calls); j += step {
+			doRot(fmt.Sprintf("C08.rotin %s %d 1", format, j), false, "stream:boundary", "mode:ca")
+		}
 	}
 }
